@@ -56,10 +56,12 @@ struct shared {
   struct wslot w[MAXW];
   struct vlog vl[MAXVLOG];
   volatile uint64_t units_done;
+  volatile int crashed;
 };
 
 
 int vf_tier = 0, vf_replaying = 0, vf_verbose = 0;
+int vf_nworkers_hint = 16;
 uint64_t vf_seed = 0;
 
 static struct shared* S;
@@ -87,6 +89,7 @@ double vf_now(void) {
   return ts.tv_sec + ts.tv_nsec * 1e-9;
 }
 double vf_deadline_left(void) { return t_deadline - vf_now(); }
+int vf_peer_crashed(void) { return S ? S->crashed : 0; }
 
 size_t vf_hex(char* out, size_t cap, const void* p, size_t n) {
   static const char* d = "0123456789abcdef";
@@ -501,6 +504,7 @@ int main(int argc, char** argv) {
   }
   if (nworkers < 1) nworkers = 1;
   if (nworkers > MAXW) nworkers = MAXW;
+  vf_nworkers_hint = nworkers;
   const char* sd = getenv("VERIF_SEED");
   if (sd) vf_seed = strtoull(sd, NULL, 10);
   setvbuf(stdout, NULL, _IOLBF, 0);
@@ -579,6 +583,7 @@ int main(int argc, char** argv) {
       alive--;
       if (!hung && WIFEXITED(st) && WEXITSTATUS(st) == 0) continue; /* finished normally */
       /* crash or hang: attribute to the published case */
+      S->crashed = 1;
       struct wslot* ws = &S->w[w];
       char path[600], lp[600], msg[2048];
       uint64_t h = vf_hash(ws->data, ws->len, vf_hash(ws->tag, strlen(ws->tag), 7));
